@@ -106,6 +106,13 @@ def run(model, res, tier):
     H.safely(res, 'R3', 'r3', _r3, model, res, c, cbs['call_variable'])
     H.safely(res, 'R3', 'r3 listener hands None', _r3_none, model, res, c, cbs)
     H.safely(res, 'R4', 'r4', _r4, model, res, c)
+    res.rule('R12', 'a parser made by the copy methods of the class resolves names through its own tables: it does not parse with the engine, '
+             'the listener lists or the tables of the parser it was made from (shared with C03.R6)')
+
+    def _copies(tmp):
+        from . import c03
+        c03.copies_are_independent(model, tmp, c, 'R12')
+    H.borrow(res, 'R12', 'copies', _copies)
     res.rule('R11', 'a formula consisting of a variable name evaluates to exactly the value of the variable: the grammar hands the value the '
              'variable callback answers on unchanged, for every kind of value (shared with C10.R12)')
 
